@@ -124,7 +124,7 @@ pub fn judge(input: &[u8], with_storage: bool, filters: &[(&'static str, Option<
         }
         _ => {}
     }
-    loc.state(mix(fnv64(input), with_storage as u64), any_ok);
+    loc.state(mix(loc.input_hash(input), with_storage as u64), any_ok);
     if any_ok {
         loc.sample(|| json!({"input": hex_short(input), "with_storage_header": with_storage, "remainder_offsets": rest_offsets.iter().map(|(o, f)| json!([o, f])).collect::<Vec<_>>()}));
     }
@@ -134,7 +134,7 @@ pub fn judge(input: &[u8], with_storage: bool, filters: &[(&'static str, Option<
 fn judge_loop(input: &[u8], with_storage: bool, loc: &mut Local) {
     loc.evals += 1;
     loc.traces += 1;
-    loc.state(mix(fnv64(input), 2 + with_storage as u64), true);
+    loc.state(mix(loc.input_hash(input), 2 + with_storage as u64), true);
     let mut off = 0usize;
     let mut steps = 0;
     loop {
@@ -169,6 +169,15 @@ pub fn run(ctx: &Ctx) {
     ctx.assume("ParsedMessage::Invalid is counted but not judged (the statement speaks of returned, filtered-out and skipped messages)");
     let filters = filter_configs();
     let filters = &filters;
+    {
+        let lows = prefix_sweep_lows(ctx.tier);
+        let lows = &lows;
+        let tier = ctx.tier;
+        ctx.run_family(Family::new("c04.prefix_sweep", prefix_sweep_size(ctx.tier), format!("{} (LEN low bytes {:02x?}) x 5 filter configurations + skipper", PREFIX_SWEEP_ABOUT, lows), move |i, loc| {
+            loc.input_hash_override = Some(i);
+            with_prefix_sweep_case(i, tier, lows, |input, mode| judge(input, mode, &filters[..if tier == Tier::Quick { filters.len() } else { 3 }], loc));
+        }).distinct());
+    }
     for f in decode_inputs(ctx.tier) {
         let gen = &f.gen;
         ctx.run_family(Family::new(format!("c04.{}", f.name), f.size * VARIANTS, format!("{} x 3 storage variants x 5 filter configurations + skipper", f.about), move |i, loc| {
